@@ -93,7 +93,7 @@ theorem Refines.livePairs {c : Cache} {s : List Rec} (h : Refines lower c s) (us
 /-- the D24 filter reads the cache through `async_get_unique` only: both stores keep the same withdrawn records -/
 theorem Refines.keptRemoves {c : Cache} {s : List Rec} (h : Refines lower c s) (rs : List Rec) :
     keptRemoves (Cache.ops lower) c rs = keptRemoves (Flat.ops lower) s rs := by
-  unfold Zc.keptRemoves
+  unfold Zc.keptRemoves Zc.keptRemovesWith
   apply List.filter_congr
   intro r _
   have : (Cache.ops lower).getUnique c r = (Flat.ops lower).getUnique s r := h.getUnique _
